@@ -22,7 +22,11 @@ RULE = (
     "only transform none is run and the iterated sequence is compared with the path form. Part 'inspect' (annotation x form {path, "
     "list, generator, DataIterator with a counting transform}; not for the inconsistent text): all 16 look_for subsets x limit None, "
     "1..n+1; inspect() equals a Counter reference and iterates no more features than it reports. Non-trivial = checklines < n or a "
-    "transform is given or the form is not a plain path (forms); look_for non-empty and limit None or <= n (inspect)."
+    "transform is given or the form is not a plain path (forms); look_for non-empty and limit None or <= n (inspect). Part 'update' "
+    "(annotations GFF3 n=4 / n=12 and GTF n=3 x forms path, gzip, string, list, one-shot generator x checklines {0,1,10} x transform): "
+    "the same input goes through FeatureDB.update() on an existing file database; after reopening, the earlier features are unchanged, "
+    "the new ones equal the expectation in order, the transform log and the generator pull log are exact; every such execution is "
+    "non-trivial."
 )
 ASSUMPTIONS = [
     "annotations are consistent files whose lines all carry the same keys (so every form infers the same dialect); the one exception, "
@@ -55,6 +59,9 @@ def shards(tier):
         for form in ("path", "list", "generator", "counted"):
             if a[0] != "gff3mixed":
                 out.append(("inspect", a, form))
+        if a in (("gff3", 4), ("gtf", 3), ("gff3", 12)):
+            for form in ("path", "gz", "string", "list", "generator"):
+                out.append(("update", a, form))
     return out
 
 
@@ -313,8 +320,48 @@ def body_inspect(ch, ctx):
               got=res, expected=exp)
 
 
+def body_update(ch, ctx):
+    """The same input forms and transforms through FeatureDB.update(): an existing database gains the second annotation."""
+    _, (kind, n), form = ctx.shard
+    cl = ch.choose("checklines", (0, 1, 10))
+    tname = ch.choose("transform", TRANSFORMS)
+    texts = texts_of(kind, n)
+    wd = ctx.fresh_dir()
+    base = ["c9\tb\tgene\t1\t5\t.\t+\t.\tID=base1;tag=x", "c9\tb\tgene\t7\t9\t.\t+\t.\tID=base2;tag=y"]
+    if kind == "gtf":
+        base = ['c9\tb\texon\t1\t5\t.\t+\t.\tgene_id "bg"; transcript_id "bt"; exon_number "1";']
+    inf = dict(disable_infer_genes=True, disable_infer_transcripts=True) if kind == "gtf" else {}
+    dbfn = os.path.join(wd, "u.db")
+    db = gffutils.create_db(dbutil.write_text(wd, "base.gff", "\n".join(base) + "\n"), dbfn, verbose=False, **inf)
+    before = [str(f) for f in db.all_features()]
+    log = []
+    tf = make_transform(tname, log, [t.split("\t")[3] for t in texts])
+    data, kw, src = build_input(form, kind, texts, wd, cl, tf, "u")
+    sig = dict(form=form, transform=tname, kind=kind, api="update")
+    ctx.sample(lambda: dict(annotation=[kind, n], form=form, checklines=cl, transform=tname, api="update"))
+    ctx.nontrivial()
+    ctx.outcome(("update", kind, n, form, cl, tname))
+    try:
+        db.update(data, make_backup=False, verbose=False, **dict(kw, **inf))
+    except Exception as e:
+        ctx.fail("update-raised", dict(sig, exc=type(e).__name__), checklines=cl, message=str(e)[:200])
+        return
+    exp = expected_after(kind, texts, tname)
+    dbutil.close_db(db)
+    got = [str(f) for f in gffutils.FeatureDB(dbfn).all_features()]
+    ctx.check(got[:len(before)] == before, "update-changed-earlier-features", sig, before=before, after=got[:len(before)])
+    ctx.check(got[len(before):] == exp, "updated-database-differs-from-expectation", sig, checklines=cl, got=got[len(before):], expected=exp)
+    if tname != "none":
+        want = [t.split("\t")[3] for t in texts]
+        ctx.check(log == want, "transform-not-applied-exactly-once-in-order", sig, calls=log, expected=want)
+    if src is not None:
+        ctx.check([x for x in src.log if x != "stop"] == list(range(n)), "generator-items-not-pulled-once-in-order", sig, log=src.log)
+
+
 def body(ch, ctx):
     if ctx.shard[0] == "forms":
         body_forms(ch, ctx)
+    elif ctx.shard[0] == "update":
+        body_update(ch, ctx)
     else:
         body_inspect(ch, ctx)
